@@ -6,6 +6,7 @@ import (
 
 	"github.com/gregoryv/mq"
 
+	"verif/drv"
 	"verif/gen"
 	"verif/link"
 	"verif/ref"
@@ -16,7 +17,11 @@ import (
 // instrumented check process and by the child processes of the unmodified
 // build, which regenerate the same packet from the same sub-seed: it must be
 // the first thing a run draws from its tape.
+// c11Recipe: how the packet of the current run was built (nil for decoded ones).
+var c11Recipe *drv.Recipe
+
 func c11Packet(c *sim.Ctx) (mq.Packet, *ref.AP, string) {
+	c11Recipe = nil
 	t := c.T
 	cfg := apiCfg(c, false)
 	cfg.NoHuge = true
@@ -49,13 +54,16 @@ func c11Packet(c *sim.Ctx) (mq.Packet, *ref.AP, string) {
 		// a zero-value literal filled in through the setters (no constructor):
 		// whatever it encodes to, read-only operations must leave it alone and
 		// encode it the same way every time
-		if p, _, err := buildGuardZero(a, t); err == nil {
+		var p mq.Packet
+		var err error
+		if pi := sim.Guard(func() { p, c11Recipe, err = drv.BuildR(a, t, true) }); pi == nil && err == nil {
 			return p, a, "zero-literal"
 		}
 		return nil, a, "zero-literal"
 	}
-	p, _, err := buildGuard(a, t)
-	if err != nil {
+	var p mq.Packet
+	var err error
+	if pi := sim.Guard(func() { p, c11Recipe, err = drv.BuildR(a, t, false) }); pi != nil || err != nil {
 		return nil, a, how
 	}
 	return p, a, how
